@@ -2,7 +2,7 @@
 From RJ Require Import Base.Prelude Base.OrderedPlan Model.Settings Model.Core Model.Fs Model.Paths Model.Sync Model.SyncTop Model.Roots
   Spec.PlanSpec Spec.Mirror Proofs.ExecProofs Proofs.PathsProofs Proofs.MirrorProofs Proofs.InstanceProofs.
 From RJ Require Model.Walker Proofs.WalkBridge Proofs.WalkedSync.
-From RJ Require Import Model.SpecRun Proofs.SpecProofs.
+From RJ Require Import Model.SpecRun Proofs.SpecProofs Proofs.LinkTexts.
 
 (* The mirror theorem: for every source tree, destination state, filter verdict, behaviour setting,
    answer sequence, listing order (any valid listing), interleaving and fault plan - if sync() returns
@@ -88,6 +88,29 @@ Theorem C01_mirror_keeps_times_set : forall incl diff S D D',
   mirror now_far incl normalize_unix diff Unix S D D' -> src_times_set S -> src_times_set D -> src_times_set D'.
 Proof. exact mirror_keeps_times_set. Qed.
 
+(* CLOSED for chains: if all trees are good at the start (well-formed, all times set, all link texts well-formed UTF-8)
+   and no sync of the spec skips anything, then every sync that returns Ok mirrors its source as it was when that sync
+   began - however many earlier syncs of the spec had written it - and every store along the way is good.  Nothing is
+   assumed about the trees in the middle of the run: a mirrored destination keeps all times set
+   (C01_mirror_keeps_times_set) and every link text a run writes is well formed again (C01_run_keeps_links_utf8,
+   from Proofs/Utf8Join.v: well-formed UTF-8 is closed under concatenation). *)
+Theorem C01_spec_chain_mirrors : forall jobs st, store_good st ->
+  Forall clean_run (spec_trace jobs st) ->
+  Forall (fun t =>
+    let j := t_job t in let S := sget (t_store t) (j_src j) in let D := sget (t_store t) (j_dst j) in
+    store_good (t_store t) /\
+    (r_ok (t_res t) = true ->
+     mirror now_far (excl_incl (j_ex j)) normalize_unix (cf_diff (j_cfg j)) Unix S D (d_fs (r_dest (t_res t)))))
+    (spec_trace jobs st).
+Proof. exact spec_chain_mirrors. Qed.
+Theorem C01_run_keeps_links_utf8 : forall cfg S D a ans bits ex ft,
+  unique_keys S -> wf_fs S -> unique_keys D -> wf_fs D -> links_utf8 S -> links_utf8 D -> cf_fl cfg = Unix ->
+  let ls := list_fs now_far (excl_incl ex) normalize_unix S in
+  let ld := list_fs now_far (excl_incl ex) normalize_unix D in
+  (forall s, In s (Proofs.CrashMain.sync_kill_states now_far normalize_unix chunk_real cfg S (world D a []) ans bits ls ld ft) -> links_utf8 (d_fs s)) /\
+  links_utf8 (d_fs (r_dest (run_top cfg S D a ans bits ex ft))).
+Proof. exact run_top_keeps_links_utf8. Qed.
+
 (* Link text: what is written on the destination has the same components as the source text for a
    relative target and is the text itself otherwise; and it normalises to the same target again. *)
 Theorem C01_link_text : forall t, lossy t = t -> same_path_text t (denormalize Unix (normalize_unix t)) = true.
@@ -128,3 +151,5 @@ Print Assumptions C01_spec_each_sync_mirrors.
 Print Assumptions C01_spec_final_trees.
 Print Assumptions C01_spec_stores_well_formed.
 Print Assumptions C01_mirror_keeps_times_set.
+Print Assumptions C01_spec_chain_mirrors.
+Print Assumptions C01_run_keeps_links_utf8.
